@@ -45,6 +45,12 @@ def f(x):
     return 2 * x + 1
 
 
+def quota_of(cfg, i):
+    """chunks the i-th worker of a plain pool may process (one number for all, or a list with one entry per worker)"""
+    q = cfg.quota[i] if isinstance(cfg.quota, (list, tuple)) else cfg.quota
+    return math.inf if q is None else q
+
+
 def call_input(k, n, ikind="list"):
     if ikind == "vals":
         # items a pool must treat like any other: 0 (falsy) first, None (also the pools' own stop token) at odd positions
@@ -55,8 +61,9 @@ def call_input(k, n, ikind="list"):
 class Config:
     def __init__(self, name, kind="functor", workers=1, quota=None, wq=1.0, rq=None, calls=(),
                  until_all_ready=False, fault=None, family=None, required=(), delayed_put=False,
-                 precreate=False, wid_offset=0, second_pool=False, zipped=False):
+                 precreate=False, wid_offset=0, second_pool=False, zipped=False, join_timeout=None):
         self.name = name
+        self.join_timeout = join_timeout  # pool option; with it, workers may legitimately outlive the context (not judged)
         self.kind = kind                  # functor | factory
         self.workers = workers
         self.quota = quota                # chunks per worker (factory)
@@ -78,7 +85,7 @@ class Config:
                 "work_queue_maxsize": self.wq, "results_queue_maxsize": self.rq, "calls": self.calls,
                 "until_all_ready": self.until_all_ready, "fault": self.fault, "delayed_put": self.delayed_put,
                 "precreate": self.precreate, "wid_offset": self.wid_offset, "second_pool": self.second_pool,
-                "zipped": self.zipped}
+                "zipped": self.zipped, "join_timeout": self.join_timeout}
 
 
 def make_driver(cfg):
@@ -107,7 +114,7 @@ def make_driver(cfg):
                 return f(x)
 
             def begin(self):
-                self.log.add(self.wid, "begin")
+                self.log.add(self.wid, "begin", self.max_chunks_per_worker)        # the quota this worker starts with
                 if fault is not None and fault[0] == "begin" and self.cidx == fault[1]:
                     raise (FaultExit if fault[2:] == ("exit",) else Fault)("begin fault")
                 self.log.add(self.wid, "begin-done")
@@ -117,26 +124,26 @@ def make_driver(cfg):
 
         class Factory(M.FunctorWorkerFactory):
             def create(self):
-                return W(cfg.quota if cfg.quota is not None else math.inf)
+                return W(quota_of(cfg, 0))
 
         if cfg.kind == "functor":
             class Pool(vmp.Monitored, M.FunctorPool):
                 pass
-            pool = Pool([W(cfg.quota if cfg.quota is not None else math.inf) for _ in range(cfg.workers)],
-                        work_queue_maxsize=cfg.wq, results_queue_maxsize=cfg.rq)
+            pool = Pool([W(quota_of(cfg, i)) for i in range(cfg.workers)],
+                        work_queue_maxsize=cfg.wq, results_queue_maxsize=cfg.rq, join_timeout=cfg.join_timeout)
         else:
             class Pool(vmp.Monitored, M.FactoryFunctorPool):
                 pass
-            pool = Pool(cfg.workers, Factory(), work_queue_maxsize=cfg.wq, results_queue_maxsize=cfg.rq)
+            pool = Pool(cfg.workers, Factory(), work_queue_maxsize=cfg.wq, results_queue_maxsize=cfg.rq, join_timeout=cfg.join_timeout)
         out["pool"] = pool
         pool2 = None
         if cfg.second_pool:
             # pools are independent objects: a second one, alive at the same time, serves every other call
             if cfg.kind == "functor":
-                pool2 = Pool([W(cfg.quota if cfg.quota is not None else math.inf) for _ in range(cfg.workers)],
-                             work_queue_maxsize=cfg.wq, results_queue_maxsize=cfg.rq)
+                pool2 = Pool([W(quota_of(cfg, i)) for i in range(cfg.workers)],
+                             work_queue_maxsize=cfg.wq, results_queue_maxsize=cfg.rq, join_timeout=cfg.join_timeout)
             else:
-                pool2 = Pool(cfg.workers, Factory(), work_queue_maxsize=cfg.wq, results_queue_maxsize=cfg.rq)
+                pool2 = Pool(cfg.workers, Factory(), work_queue_maxsize=cfg.wq, results_queue_maxsize=cfg.rq, join_timeout=cfg.join_timeout)
         if cfg.wid_offset and hasattr(pool, "_wid_counter"):
             # as if many workers had been created (and replaced) on this pool before: ids beyond the small-int cache
             object.__setattr__(pool, "_wid_counter", object.__getattribute__(pool, "_wid_counter") + cfg.wid_offset)
@@ -305,11 +312,11 @@ def judge(cfg, r):
                     starved = in_call and not workers_alive and not replace_alive
                     sig3 = dict(sig, kind="starved" if starved else r.outcome)
                     v.append(("C03", sig3, what + ("; pool ran out of workers" if starved else ""), {"blocked": r.blocked}))
-        else:
+        elif cfg.join_timeout is None:
             # main left the pool context but something is still running / blocked
             sig = {"family": fam, "kind": "left-running", "blocked": bs}
             v.append(("C04", sig, "%s: after the pool context was left: %s" % (cfg.name, bs), {"blocked": r.blocked}))
-    if out.get("unjoined"):
+    if out.get("unjoined") and cfg.join_timeout is None:
         sig = {"family": fam, "kind": "not-joined"}
         v.append(("C04", sig, "%s: the pool context was left although worker process(es) %s had not been joined "
                   "(not finished, or finished without anybody waiting for them)" % (
@@ -341,6 +348,8 @@ def judge(cfg, r):
             continue
         if faulty and role == "W":
             continue
+        if cfg.join_timeout is not None and role == "W" and ename == "BrokenPipeError":
+            continue        # a worker that outlived the context (allowed with join_timeout) finds the manager gone
         sig = {"family": fam, "kind": "thread-exception", "role": role, "exc": ename}
         what = "%s: %s died with %s: %s" % (cfg.name, role, ename, msg)
         prop = "C04" if role == "W" else ("C03" if (len(calls) > 1 or role == "ReplaceWorkerThread") else "C01")
@@ -373,7 +382,8 @@ def judge_lifecycle(cfg, r, out):
             sig = {"family": fam, "kind": "lifecycle", "seq": re.sub(r"i+", "i", seq)}
             v.append(("C04", sig, "%s: worker %s (wid %r) event order %s (B begin, b begin returned, i item, E end)" % (
                 cfg.name, tname, evs[0][2], seq), {}))
-        if cfg.quota is not None:
+        quota = evs[0][4] if evs[0][3] == "begin" and evs[0][4] is not None else math.inf
+        if quota != math.inf:
             chunks = set()
             for e in evs:
                 if e[3] == "item" and isinstance(e[4], int) and e[4] >= 100:
@@ -381,10 +391,10 @@ def judge_lifecycle(cfg, r, out):
                     j = e[4] % 100
                     cs = cfg.calls[k][3] if 0 <= k < len(cfg.calls) else 1
                     chunks.add((k, j // cs))
-            if len(chunks) > cfg.quota:
+            if len(chunks) > quota:
                 sig = {"family": fam, "kind": "quota"}
                 v.append(("C04", sig, "%s: worker %s processed %d chunks with quota %d" % (
-                    cfg.name, tname, len(chunks), cfg.quota), {}))
+                    cfg.name, tname, len(chunks), quota), {}))
     if cfg.until_all_ready:
         for e in log:
             if e[3] == "ready-returned":
@@ -570,7 +580,7 @@ def replay_pool(rec):
                  until_all_ready=c["until_all_ready"], fault=tuple(c["fault"]) if c["fault"] else None,
                  delayed_put=c.get("delayed_put", False), precreate=c.get("precreate", False),
                  wid_offset=c.get("wid_offset", 0), second_pool=c.get("second_pool", False),
-                 zipped=c.get("zipped", False))
+                 zipped=c.get("zipped", False), join_timeout=c.get("join_timeout"))
     pin_self()
     racy = {(tuple(a), b) for a, b in rp["racy"]}
     outs = []
